@@ -504,6 +504,12 @@ public:
         );
     }
 
+    // Drops whatever was received but not yet parsed (used when the
+    // connection is given up because of a malformed packet).
+    void discard_read_buffer() {
+        _active_span = { _read_buff.cend(), _read_buff.cend() };
+    }
+
     template <typename CompletionToken>
     decltype(auto) async_wait_reply(
         control_code_e code, uint16_t packet_id, CompletionToken&& token
